@@ -606,8 +606,9 @@ def _verify_mode(contract, case, contracts, want_models, mode):
             recs.append(rec)
     for r in recs:
         r.setdefault("time", 0.0)
+    interpreted = sorted(set().union(*[p["ctx"].ghost.get("$interpreted", set()) for p in paths])) if paths else []
     recs.append(dict(base, name=f"{qual}[{label}]:paths", clause="$meta", verdict="meta", paths=len(paths),
-                     time=time.time() - t_start, sha=sha))
+                     time=time.time() - t_start, sha=sha, interpreted=interpreted))
     return recs
 
 
